@@ -40,7 +40,8 @@ Inductive handler :=
 | HClrM (l : N)
 | HGetM (l : N) (k : Z)                (* get(l, k).and_then(|v| effect(record (EGotM l k v))) *)
 | HSeq (a b : handler)                 (* a.followed_by(b) *)
-| HThen (a b : handler).               (* a.and_then(|()| b): the AndThen machine over an arbitrary first half *)
+| HThen (a b : handler)                (* a.and_then(|()| b): the AndThen machine over an arbitrary first half *)
+| HWrap (a : handler).                 (* a.discard(), Some(a).discard(), a.map(|_| ()): a result transformer around a *)
 
 (* the lifecycle of the agent: the bodies run after the lifecycle event itself has been recorded *)
 Record lifecycle := {
@@ -136,6 +137,8 @@ Inductive hstate :=
 Fixpoint init (h : handler) : hstate :=
   match h with
   | HSeq a b | HThen a b => SFirst (init a) b
+  | HWrap a => SSecond (init a)           (* Discard / Option / Map step their inner handler and pass on what it
+                                             reports, as FollowedBy::Second does *)
   | _ => SLeaf h
   end.
 
@@ -157,6 +160,7 @@ Fixpoint step (h : hstate) (st : store) (tr : list event)
   | SLeaf (HClrM l) => (RDone, Some (IMap l), SDone, do_clear st l, tr)
   | SLeaf (HGetM l k) => (RCont, None, SBindRec (EGotM l k (zlookup k (m_content (mget st l)))), st, tr)
   | SLeaf (HSeq a b) | SLeaf (HThen a b) => (RFail, None, SDone, st, tr)           (* not produced by [init] *)
+  | SLeaf (HWrap a) => (RFail, None, SDone, st, tr)
   | SDone => (RFail, None, SDone, st, tr)
   | SBindSet dst v => (RDone, Some (IVal dst), SDone, do_set st dst v, tr)
   | SBindRec e => (RDone, None, SDone, st, tr ++ [e])
@@ -231,6 +235,7 @@ Fixpoint eval (fuel : nat) (lc : lifecycle) (h : handler) (st : store) (tr : lis
           | Some (Ok, st1, tr1) => eval f lc b st1 tr1
           | ow => ow
           end
+      | HWrap a => eval f lc a st tr
       end
   end.
 
